@@ -109,8 +109,7 @@ def check_matrix_properties(ctx, f2c, c2f, xr, xc, info):
     y = rs.uniform(300, 900, wr.shape[0])
     e1 = abs(np.dot(wr, F @ x) - np.dot(wc, x)) / abs(np.dot(wc, x))
     e2 = abs(np.dot(wc, C @ y) - np.dot(wr, y)) / abs(np.dot(wr, y))
-    half_ok = abs(dr[0] - dr[-1]) <= 1e-9 * dr[0] and abs(dc[0] - dc[-1]) <= 1e-9 * dc[0]
-    if half_ok and max(e1, e2) > 1e-10:
+    if max(e1, e2) > 1e-10:
         return "conservation: perimeter-weighted integral changes by %.3g" % max(e1, e2)
     if xcp.shape == xr.shape and np.allclose(xcp, xr):
         if np.abs(F - np.eye(nc)).max() > 1e-9 or np.abs(C - np.eye(nc)).max() > 1e-9:
@@ -199,5 +198,5 @@ def run(ctx):
     ctx.assumptions += ["the theorems cover the overlap matrix and its two normalisations (non-negativity, rows sum to one, "
                         "column tiling, conservation, identity); the fold of the split top corner is part of the executable "
                         "model and of the oracle, its algebra is not yet a theorem",
-                        "conservation through the corner fold needs the two halves of the top corner to be equal (true for "
-                        "all meshes DASSH builds; checked per case)"]
+                        "conservation through the corner fold is checked by the oracle also when the two halves of the top "
+                        "corner differ (different neighbours on the first and last hex side)"]
